@@ -94,7 +94,7 @@ Qed.
 (* ---- url.Parse on an owner ---- *)
 Definition rawpath_of (r d : bytes) : bytes := if bytes_eqb r (path_escape d) then [] else r.
 Definition owner_url (sch h r d : bytes) : uurl :=
-  {| uu_scheme := lower sch; uu_opaque := []; uu_host := h; uu_path := d; uu_rawpath := rawpath_of r d;
+  {| uu_scheme := lower sch; uu_opaque := []; uu_user := None; uu_host := h; uu_path := d; uu_rawpath := rawpath_of r d;
      uu_query := None; uu_frag := []; uu_rawfrag := []; uu_omit := false |}.
 
 Lemma parse_owner_u sch h r d :
@@ -141,11 +141,11 @@ Lemma owners_equivalent_u s1 s2 h r1 r2 d1 d2 :
   iri_equ (owner_str s1 h r1) (owner_str s2 h r2) true = true.
 Proof.
   intros O1 O2 D1 D2 Hs Hp. unfold iri_equ, iri_equals_u. rewrite iri_equals_f_unfold.
-  destruct (ufold_eqb _ _); [reflexivity|].
+  destruct (sfold_eqb _ _); [reflexivity|].
   unfold iris_equal_f. rewrite (classify_owner_u _ _ _ _ O1 D1), (classify_owner_u _ _ _ _ O2 D2).
-  cbn [u_scheme u_host u_path u_query]. unfold paths_equal_f. rewrite Hp, !ufold_eqb_refl.
+  cbn [u_scheme u_host u_path u_query]. unfold paths_equal_f. rewrite Hp, !sfold_eqb_refl.
   destruct (owner_ok_u_parts _ _ _ O1) as [_ [A1 _]]. destruct (owner_ok_u_parts _ _ _ O2) as [_ [A2 _]].
-  rewrite (ufold_eqb_ascii _ _ (lower_ascii _ (scheme_ascii _ A1)) (lower_ascii _ (scheme_ascii _ A2))).
+  rewrite (sfold_eqb_ascii _ _ (lower_ascii _ (scheme_ascii _ A1)) (lower_ascii _ (scheme_ascii _ A2))).
   replace (fold_eqb (lower s1) (lower s2)) with true.
   2:{ symmetry. apply fold_eqb_eq. rewrite !lower_idem. apply fold_eqb_eq. exact Hs. }
   reflexivity.
@@ -299,7 +299,7 @@ Proof.
   destruct (D' ++ [slash]) as [|y DD] eqn:EE; [destruct D'; discriminate|]. rewrite <- EE in *. rewrite C5.
   eexists. split; [reflexivity|].
   replace (D' ++ slash :: c) with ((D' ++ [slash]) ++ c) by (rewrite <- app_assoc; reflexivity).
-  change {| uu_scheme := lower sch; uu_opaque := []; uu_host := h; uu_path := (D' ++ [slash]) ++ c;
+  change {| uu_scheme := lower sch; uu_opaque := []; uu_user := None; uu_host := h; uu_path := (D' ++ [slash]) ++ c;
             uu_rawpath := rawpath_of (r ++ repeat slash j ++ c) ((D' ++ [slash]) ++ c);
             uu_query := None; uu_frag := []; uu_rawfrag := []; uu_omit := false |}
     with (owner_url sch h (r ++ repeat slash j ++ c) ((D' ++ [slash]) ++ c)).
